@@ -2996,25 +2996,29 @@ class Choice(Set):
 
     _currentIdx = None
 
-    def _holdsOtherAlternative(self, other):
-        # two values of one CHOICE type are equal only if they hold
-        # the same alternative (a:5 is not b:5)
+    def _sameChoiceType(self, other):
         return (isinstance(other, Choice) and
                 other.componentType is self.componentType and
-                other._currentIdx is not None and
-                other._currentIdx != self._currentIdx)
+                other._currentIdx is not None)
 
     def __eq__(self, other):
         if self._componentValues:
-            if self._holdsOtherAlternative(other):
-                return False
+            if self._sameChoiceType(other):
+                # two values of one CHOICE type are equal only if they hold
+                # the same alternative (a:5 is not b:5) and equal values
+                # (which may be CHOICE values in their turn)
+                if other._currentIdx != self._currentIdx:
+                    return False
+                other = other._componentValues[other._currentIdx]
             return self._componentValues[self._currentIdx] == other
         return NotImplemented
 
     def __ne__(self, other):
         if self._componentValues:
-            if self._holdsOtherAlternative(other):
-                return True
+            if self._sameChoiceType(other):
+                if other._currentIdx != self._currentIdx:
+                    return True
+                other = other._componentValues[other._currentIdx]
             return self._componentValues[self._currentIdx] != other
         return NotImplemented
 
